@@ -104,15 +104,18 @@ func init() {
 	})
 	register(&Property{
 		ID: "C20",
-		Explanation: "Decides the wiring only: (select-wiring) runRestore assigns the exclude filter (the literal ranging over the exclude pattern list) to Restorer.SelectFilter only when exclude patterns exist and the include filter only when include patterns exist, never with patterns of the other kind; in the tree walk visitNode and enterDir run only on selectedForRestore==true and the recursion only on childMayBeSelected==true; (delete-guard) --delete removes an entry only if it is selected, not in the snapshot and below the directory; (include-filter-accumulates) the include filter asks every include function about the item, each result is (old value || this function's answer), and the loop over the functions is left early only on the edges where both accumulated answers are already true — otherwise a later function (the case-sensitive one after the case-insensitive one) would never be asked; added after a seeded change that turned that && into ||. Not decided: which paths the patterns match (C28).",
+		Explanation: "Decides the wiring only: (select-wiring) runRestore assigns the exclude filter (the literal ranging over the exclude pattern list) to Restorer.SelectFilter only when exclude patterns exist and the include filter only when include patterns exist, never with patterns of the other kind; in the tree walk visitNode and enterDir run only on selectedForRestore==true and the recursion only on childMayBeSelected==true; (delete-guard) --delete removes an entry only if it is selected, not in the snapshot and below the directory; (include-filter-accumulates) the include filter asks every include function about the item, each result is (old value || this function's answer), and the loop over the functions is left early only on the edges where both accumulated answers are already true — otherwise a later function (the case-sensitive one after the case-insensitive one) would never be asked; added after a seeded change that turned that && into ||; (delete-keep-list-complete) the list of names traverseTreeInner returns — the keep list --delete compares the directory with — receives node.Name on every way into the next node of the tree, unless --delete is off or was switched off on that path: also the names of nodes that are not restored (sockets, unselected nodes) are part of the snapshot; added after a seeded change that recorded the name only behind the socket skip. Not decided: which paths the patterns match (C28), and that leaveDir runs for directories in which nothing was selected (observation in DESIGN §8.3).",
 		Assumptions: commonAssumptions,
 		Technique:   "static analysis: CFG edge cuts + closure-capture resolution + loop-exit edge analysis over the accumulator phis (go/ssa)",
 		Run: func(c *eng.Ctx) {
 			ruleSelectWiring(c)
 			ruleDeleteGuard(c)
 			ruleIncludeLoopExit(c)
+			ruleDeleteKeepListComplete(c)
 		},
 		Controls: []Control{
+			{Name: "socket-names-not-in-keep-list", File: "internal/restorer/restorer.go",
+				Old: "			filenames = append(filenames, node.Name)\n", New: "			if node.Type != data.NodeTypeSocket {\n				filenames = append(filenames, node.Name)\n			}\n", Rule: "delete-keep-list-complete"},
 			{Name: "include-loop-stops-at-first-match", File: "cmd/restic/cmd_restore.go",
 				Old: "			if selectedForRestore && childMayBeSelected {\n				break\n			}", New: "			if selectedForRestore {\n				break\n			}", Rule: "include-filter-accumulates"},
 			{Name: "restore-unselected-nodes", File: "internal/restorer/restorer.go",
